@@ -246,17 +246,20 @@ func UpdateRef(sp interface{}, key string, ref spec.Ref) error {
 		}
 		switch container := pvalue.(type) {
 		case spec.Definitions:
-			container[entry] = spec.Schema{SchemaProps: spec.SchemaProps{Ref: ref}}
+			refable.Ref = ref
+			container[entry] = refable
 
 		case map[string]spec.Schema:
-			container[entry] = spec.Schema{SchemaProps: spec.SchemaProps{Ref: ref}}
+			refable.Ref = ref
+			container[entry] = refable
 
 		case []spec.Schema:
 			idx, err := strconv.Atoi(entry)
 			if err != nil {
 				return ErrNotANumber(pth, err)
 			}
-			container[idx] = spec.Schema{SchemaProps: spec.SchemaProps{Ref: ref}}
+			refable.Ref = ref
+			container[idx] = refable
 
 		case *spec.SchemaOrArray:
 			// NOTE: this is necessarily an array - otherwise, the parent would be *Schema
@@ -264,10 +267,12 @@ func UpdateRef(sp interface{}, key string, ref spec.Ref) error {
 			if err != nil {
 				return ErrNotANumber(pth, err)
 			}
-			container.Schemas[idx] = spec.Schema{SchemaProps: spec.SchemaProps{Ref: ref}}
+			refable.Ref = ref
+			container.Schemas[idx] = refable
 
 		case spec.SchemaProperties:
-			container[entry] = spec.Schema{SchemaProps: spec.SchemaProps{Ref: ref}}
+			refable.Ref = ref
+			container[entry] = refable
 
 		// NOTE: can't have case *spec.SchemaOrBool = parent in this case is *Schema
 
